@@ -88,7 +88,7 @@ def failing_config(cfg):
 def dup_id(cfg):
     g = execnet.Group(); g.makegateway("popen//id=dup")
     before = set(children())
-    try: g.makegateway("popen//id=dup"); err = None
+    try: g.makegateway(cfg.get("spec", "popen//id=dup")); err = None
     except BaseException as e: err = type(e).__name__
     new = [p for p in children() if p not in before]
     g.terminate(1.0); time.sleep(0.3)
@@ -140,6 +140,7 @@ cases.append(("exit-then-terminate-stopped", {"members": [["popen", "idle", "STO
 cases.append(("exit-then-terminate-idle", {"members": [["popen", "idle", None], ["popen", "sigign", None]], "timeout": 1.0, "exit_first": True}))
 cases.append(("via-exit-then-terminate", {"members": [["via", "idle", None]], "timeout": 1.0, "exit_via_first": True}))
 cases.append(("dup-id", {"kind": "dup"}))
+cases.append(("empty-id", {"kind": "dup", "spec": "popen//id="}))
 cases.append(("failing-config", {"kind": "failcfg"}))
 if MODE == "thorough":
     cases.append(("five-popen-sigign", {"members": [["popen", "sigign", None]] * 5, "timeout": 1.0}))
@@ -168,7 +169,7 @@ for name, cfg in cases:
         continue
     if cfg.get("kind") == "dup":
         if r["left"]:
-            bad.append(f"{name}: makegateway with a taken id raised {r['err']} and left child {r['left']} alive after terminate")
+            bad.append(f"{name}: makegateway with a taken or empty id raised {r['err']} and left child {r['left']} alive after terminate")
         continue
     if r["err"]:
         bad.append(f"{name}: terminate raised {r['err']}")
